@@ -3,6 +3,9 @@
 A case is ``{'gtype', 'tokens', 'rseed'}`` (plus ``'cmd'`` for the sub-check that goes through a
 real sub-command): the token list is exactly what follows the formula arguments on the command
 line, the file name after ``save`` is relative and is placed in a scratch directory by run_case.
+Two more kinds of case, both run by the sub-checks `options` (library) and `cli` (command line):
+``'kind': 'file'`` (graph arguments read from files of the harness, see run_file) and
+``'kind': 'target'`` (what the target of `save` held before the command, see run_target).
 """
 import atexit
 import itertools
@@ -31,6 +34,7 @@ ASSUMPTIONS = [
     "sizes: at most 9 vertices per side / 16 vertices for grids and trees; a defect that needs larger graphs is out of reach",
     "position of `save`: the help texts (cnfgen --help-simple / --help-bipartite / --help-dag, docstring of cnfgen/clitools/graph_args.py) list `save` among the options that 'may follow' the construction or file, 'for reproducibility', storing 'the graph generated', and say nothing about its place among the modifiers: wherever it is written, the saved file must hold the final graph, the one the formula is built from",
     "graphs read from files: the files are written by the harness (vlib/rd_graphs.py writers; gml/dot documents with identifiers 1..N, left side first), at most 7 vertices / 4 per side; file names never contain a newline (the unchanged tree copies the file name into the comment line of a saved kthlist file, which a newline breaks); non-ASCII letters in the comment lines of saved kthlist/dimacs files are ignored by the reference readers; the digraph type has no formula on the command line and is only reached through make_graph_from_spec",
+    "target of `save` (case kind 'target'): the file named after `save` is a regular file in a scratch directory or does not exist (no links, devices, directories, read-only files); whatever it held before, after an accepted command it must be byte for byte what the same request (same seed of the global generator) stores under a name that did not exist; the reference is produced through make_graph_from_spec also for the in-process command lines (under the same seed both store the same bytes: observed on the unchanged tree, and checked again by every case); the unchanged tree reads the file of the graph argument completely and closes it before `save` opens its target (obtain_graph: read_graph_from_input, modifiers, then writeGraph(mode 'w')), the documentation says nothing about saving over the input: `<file> ... save <the same file>` is taken as legal and must leave the graph that was in the file (plus the modifiers) in the format asked for; a refused request is not judged on what it leaves in the target",
 ]
 
 _TMP = {}
@@ -124,6 +128,11 @@ def _read_file(fmt, gtype, path, what):
         raise Violation("{}: `save` did not write the file".format(what))
     except UnicodeDecodeError as e:
         raise Violation("{}: the saved {} file is not UTF-8 text: {}".format(what, fmt, e))
+    return _parse_saved(fmt, gtype, text, what)
+
+
+def _parse_saved(fmt, gtype, text, what):
+    """(Desc, how) of the whole text of a file written by `save`"""
     shown = text
     if fmt in ('kthlist', 'dimacs') and not text.isascii():
         # the comment lines carry the name of the graph (with the name of the file it was read from):
@@ -449,6 +458,8 @@ def judge(gtype, tokens, build):
 def run_spec(case):
     if case.get('kind') == 'file':
         return run_file(case)
+    if case.get('kind') == 'target':
+        return run_target(case)
     gtype, tokens, rseed = case['gtype'], [str(t) for t in case['tokens']], case['rseed']
     return judge(gtype, tokens, lib_builder(gtype, rseed, _tmpdir()))
 
@@ -585,9 +596,328 @@ def run_file(case):
     return Outcome(labels=sorted(set(labels)), nontrivial=len(D0.edges) >= 1 and D0.order() >= 3)
 
 
+# ---------------------------------------------------------------------------
+# the state of the `save` target before the command
+#
+# case: {'kind': 'target', 'gtype', 'oname': file name of the target, 'scenario': name, 'steps': [...] [, 'cmd']}
+#   {'op': 'put', 'what': 'empty' | 'junk-ascii' | 'junk-utf8' | 'junk-bytes', 'size': bytes, 'fmt': flavour of the ascii lines}
+#   {'op': 'put', 'what': 'graph', 'graph': description (vlib.rd_graphs), 'fmt', 'style', 'pad': comment lines put in front}
+#         the harness writes the target
+#   {'op': 'run', 'src': [construction and its arguments] | 'self' (the graph argument is the target file itself) |
+#         {'graph', 'ifmt', 'name', 'style'} (another file, written by the harness), 'form': 'ext' | 'fmt',
+#         'mods': [[name, number...], ...] in the documented order, 'ofmt', 'sform': 'ext' | 'fmt', 'rseed', 'via': 'lib' | 'cli'}
+#         the tree runs `<graph argument> <modifiers> save [<ofmt>] <target>`; the oracle is applied after every run
+
+_JUNK_LINES = {'kthlist': '7 : 8 9 0\n', 'dimacs': 'e 8 9\n', 'matrix': '1 0 1 1\n',
+               'gml': '  edge [ source 1 target 2 ]\n]\n', 'dot': '1 -- 2;\n}\n'}
+_PAD_LINE = {'kthlist': 'c padding line written by the harness\n', 'dimacs': 'c padding line written by the harness\n',
+             'gml': '# padding line written by the harness\n', 'dot': '// padding line written by the harness\n'}
+
+
+def _desc_of(gtype, g):
+    if gtype == 'bipartite':
+        return M.Desc('bipartite', [tuple(e) for e in g['edges']], L=g['L'], R=g['R'])
+    return M.Desc(gtype, [tuple(e) for e in g['edges']], n=g['n'])
+
+
+def _put_content(gtype, step):
+    """(bytes the harness writes into the target, (Desc, format) when they are a graph file, short description)"""
+    what = step['what']
+    if what == 'graph':
+        fmt = step['fmt']
+        text = _input_text({'gtype': gtype, 'ifmt': fmt, 'graph': step['graph'], 'style': step.get('style', 0)})
+        pad = step.get('pad', 0)
+        if pad and fmt in _PAD_LINE:
+            text = _PAD_LINE[fmt] * pad + text
+        d = _desc_of(gtype, step['graph'])
+        return text.encode('utf-8'), (d, fmt), "a {} file of {} written by the harness".format(fmt, d.show())
+    if what == 'empty':
+        return b'', None, 'an empty file'
+    size = step['size']
+    if what == 'junk-ascii':
+        unit = _JUNK_LINES[step['fmt']].encode('ascii')
+    elif what == 'junk-utf8':
+        unit = 'граф №1 — ünï cödé γράφος\n'.encode('utf-8')
+    else:
+        unit = bytes(range(128, 256)) + b'\x00\xff\xfe\n'
+    data = (unit * (size // len(unit) + 1))[:size]
+    if what == 'junk-utf8':
+        data = data.decode('utf-8', 'ignore').encode('utf-8')
+    return data, None, '{} bytes of {}'.format(len(data), what)
+
+
+def _after_document(fmt, text):
+    """what follows the end of the first block of a gml / dot document; None when the block is never closed"""
+    opener, closer = ('[', ']') if fmt == 'gml' else ('{', '}')
+    depth, i, n, seen = 0, 0, len(text), False
+    while i < n:
+        ch = text[i]
+        if ch == '"':
+            i += 1
+            while i < n and text[i] != '"':
+                i += 2 if (fmt == 'dot' and text[i] == '\\') else 1
+        elif ch == opener:
+            depth += 1
+            seen = True
+        elif ch == closer:
+            depth -= 1
+            if seen and depth <= 0:
+                return text[i + 1:]
+        i += 1
+    return None
+
+
+def _write_bytes(path, data):
+    with open(path, 'wb') as f:
+        f.write(data)
+
+
+def _read_bytes(path):
+    try:
+        with open(path, 'rb') as f:
+            return f.read()
+    except FileNotFoundError:
+        return None
+
+
+def _flat(opts):
+    return [t for o in opts for t in o]
+
+
+def _target_run(gtype, cmd, step, top, target, cur, note):
+    """One `... save <target>` command. Returns (labels, (Desc, format) now in the target or None when the request
+    was refused, text describing the command)."""
+    import cnfgen.clitools.msg as msg
+    from cnfgen.clitools.graph_args import make_graph_from_spec
+    from cnfgen.clitools.cmdline import CLIError
+    rseed, ofmt, src = step['rseed'], step['ofmt'], step['src']
+    via = step.get('via', 'cli' if cmd else 'lib')
+    oname = os.path.basename(target)
+    labels = []
+    D0 = J = None
+    if src == 'self':
+        if cur is None:
+            raise RuntimeError("harness: the target holds no graph that could be the graph argument")
+        D0, ifmt = cur
+        by_ext = step.get('form') == 'ext' and M.save_format(gtype, None, oname) == ifmt
+        head = [target] if by_ext else [ifmt, target]
+        labels += ['target-is-input', 'target-is-input/{}->{}'.format(ifmt, ofmt),
+                   'target-is-input:' + ('same-format' if ifmt == ofmt else 'other-format')]
+    elif isinstance(src, dict):
+        D0, ifmt = _desc_of(gtype, src['graph']), src['ifmt']
+        ipath = os.path.join(top, src['name'])
+        if os.path.abspath(ipath) == os.path.abspath(target):
+            raise RuntimeError("harness: input file and target coincide, use src='self'")
+        with open(ipath, 'w', encoding='utf-8') as f:
+            f.write(_input_text({'gtype': gtype, 'ifmt': ifmt, 'graph': src['graph'], 'style': src.get('style', 0)}))
+        by_ext = step.get('form') == 'ext' and M.save_format(gtype, None, src['name']) == ifmt
+        head = [ipath] if by_ext else [ifmt, ipath]
+        labels.append('target-with-input-file')
+    else:
+        head = [str(t) for t in src]
+        J = M.judge_base(gtype, head[0], head[1:])
+        if J.status != 'valid':
+            raise RuntimeError("harness: the construction {} of a target case is not plainly valid".format(head))
+    mods = [[str(t) for t in m] for m in step.get('mods', [])]
+    by_ext_save = step.get('sform') == 'ext' and M.save_format(gtype, None, oname) == ofmt
+    save = ['save', target] if by_ext_save else ['save', ofmt, target]
+    labels.append('target-save-form:' + ('ext' if by_ext_save else 'fmt'))
+
+    def shown(tokens):
+        return ' '.join(t[len(top) + 1:] if t.startswith(top + os.sep) else t for t in tokens)
+    line = shown(head + _flat(mods) + save)
+    line = "cnfgen {} {}".format(' '.join(cmd), line) if via == 'cli' else "[{}] {}".format(gtype, line)
+    what = "{} (target before the command: {}; generator seeded with {})".format(line, note, rseed)
+
+    def lib(tokens):
+        random.seed(rseed)
+        msg._prefix = ''
+        try:
+            return make_graph_from_spec(gtype, list(tokens))
+        except ValueError as e:
+            raise Rejected(str(e))
+        except Exception as e:      # noqa
+            if exception_in_tree(e):
+                raise _internal(e, what)
+            raise
+        finally:
+            msg._prefix = ''
+
+    def plain(tokens):
+        try:
+            return M.describe(lib(tokens), gtype)
+        except Rejected as e:
+            raise Violation("{}: `{}` is a legal request but it is refused: {!r}".format(what, shown(tokens), str(e)[:300]))
+        except M.Mismatch as e:
+            raise Violation("{}: `{}`: {}".format(what, shown(tokens), e))
+
+    before = _read_bytes(target)
+    # 1. the graph the command has to use, step by step, without `save` and under the same seed
+    prev = plain(head)
+    if D0 is None:
+        try:
+            M.check_base(gtype, head[0], J.P, prev)
+        except M.Mismatch as e:
+            raise Violation("{}: {}".format(what, e))
+    elif not prev.same(D0):
+        raise Violation("{}: the file given as graph argument holds {} but the graph argument gives {}".format(
+            what, D0.show(), prev.show()))
+    refuse = None
+    for j, m in enumerate(mods):
+        status, vals, _ = M.step_validity(m[0], m[1:], prev)
+        if status != 'valid':
+            refuse = (status, "`{}` on {}".format(' '.join(m), prev.show()))
+            break
+        nxt = plain(head + _flat(mods[:j + 1]))
+        try:
+            M.check_step(m[0], vals, prev, nxt)
+        except M.Mismatch as e:
+            raise Violation("{}: {}".format(what, e))
+        prev = nxt
+    # 2. the command itself
+    G = F = None
+    try:
+        if via == 'cli':
+            random.seed(rseed)
+            try:
+                F = cli.build('cnfgen', list(cmd) + head + _flat(mods) + save)
+            except CLIError as e:
+                raise Rejected(str(e))
+            except SystemExit as e:
+                raise Violation("{}: the command line interface exits ({}) instead of raising its error".format(what, e.code))
+            except Exception as e:      # noqa
+                if exception_in_tree(e):
+                    raise _internal(e, what)
+                raise
+        else:
+            G = lib(head + _flat(mods) + save)
+    except Rejected as e:
+        if refuse is None:
+            raise Violation("{}: every part of the request is legal but it is refused: {!r}".format(what, str(e)[:300]))
+        return labels + ['target:request-refused'], None, line
+    if refuse is not None:
+        if refuse[0] == 'invalid':
+            raise Violation("{}: accepted although {} cannot be done".format(what, refuse[1]))
+        return labels + ['gray', 'gray-accepted'], None, line
+    # 3. the target holds exactly the graph in use, whatever it held before
+    after = _read_bytes(target)
+    if after is None:
+        raise Violation("{}: `save` did not write the file".format(what))
+    if before is None:
+        state = 'absent'
+    elif not before:
+        state = 'empty'
+    else:
+        state = 'longer' if len(before) > len(after) else 'shorter' if len(before) < len(after) else 'equal'
+    labels += ['target:' + state, 'target:{}/{}/{}'.format(state, gtype, ofmt)]
+    if src == 'self':
+        labels.append('target-is-input:' + state)
+    sizes = "{} bytes before, {} bytes after".format('no file' if before is None else len(before), len(after))
+    try:
+        text = after.decode('utf-8')
+    except UnicodeDecodeError as e:
+        raise Violation("{}: the saved {} file is not UTF-8 text ({}): {} -- end of the file: {!r}".format(
+            what, ofmt, sizes, e, after[-120:]))
+    fd, how = _parse_saved(ofmt, gtype, text, "{} [{}]".format(what, sizes))
+    if ofmt in ('gml', 'dot'):
+        rest = _after_document(ofmt, text)
+        if rest is None or rest.strip():
+            raise Violation("{}: the saved {} file ({}) has text after the end of the graph: {!r}".format(
+                what, ofmt, sizes, (rest if rest is not None else text)[:200]))
+    if G is not None:
+        try:
+            d = M.describe(G, gtype)
+        except M.Mismatch as e:
+            raise Violation("{}: {}".format(what, e))
+        if not d.same(prev):
+            raise Violation("{}: with `save` the graph returned is {}, without it (same seed) {}".format(what, d.show(), prev.show()))
+    if not fd.same(prev):
+        raise Violation("{}: the {} file written by `save` ({}) holds {} but the graph in use is {}".format(
+            what, ofmt, sizes, fd.show(), prev.show()))
+    if F is not None:
+        _same_formula(F, _library_formula(cmd, gtype, fd), what, fd)
+        labels.append('target-formula-checked')
+    # 4. ... and nothing else: byte for byte what the same request stores in a file that does not exist yet
+    ref = os.path.join(top, 'fresh_' + oname)
+    if os.path.lexists(ref):
+        raise RuntimeError("harness: scratch name in use")
+    if src == 'self':
+        _write_bytes(target, before)
+    try:
+        lib(head + _flat(mods) + ['save', ofmt, ref])
+        fresh = _read_bytes(ref)
+    except Rejected as e:
+        raise Violation("{}: the same request with a new file name is refused: {!r}".format(what, str(e)[:300]))
+    finally:
+        _cleanup([ref])
+        if src == 'self':
+            _write_bytes(target, after)
+    if fresh != after:
+        k = 0
+        while k < min(len(fresh or b''), len(after)) and fresh[k] == after[k]:
+            k += 1
+        raise Violation("{}: the target ({}) is not what the same request stores in a file that did not exist ({} bytes): "
+                        "they agree on the first {} bytes, then the target has {!r}, the new file {!r}".format(
+                            what, sizes, len(fresh or b''), k, after[k:k + 120], (fresh or b'')[k:k + 120]))
+    labels.append('reader-' + how)
+    if ofmt != 'dot' or rseed % 4 == 0:
+        labels += _reread(ofmt, gtype, target, what, fd, rseed)
+    return labels, (fd, ofmt), line
+
+
+def run_target(case):
+    import cnfgen.graphs
+    gtype = case['gtype']
+    cmd = [str(t) for t in case['cmd']] if 'cmd' in case else None
+    allowed = cnfgen.graphs.supported_graph_formats()[gtype]
+    for step in case['steps']:
+        fmts = [step.get('fmt') if step.get('what') in ('graph',) else None, step.get('ofmt'),
+                step['src'].get('ifmt') if isinstance(step.get('src'), dict) else None]
+        if any(f is not None and f not in allowed for f in fmts):
+            return Outcome(labels=['dot-not-available'], nontrivial=False)
+    labels = ['target', 'target-scenario:' + case.get('scenario', '?')]
+    if cmd:
+        labels += ['cmd-' + cmd[0], 'target-via-command-line']
+    top = tempfile.mkdtemp(prefix='tgt_', dir=_tmpdir())
+    nontrivial = rejected = False
+    try:
+        target = os.path.join(top, case['oname'])
+        cur, note, lines, old = None, 'no such file', [], 'absent'
+        for step in case['steps']:
+            if step['op'] == 'put':
+                data, cur, note = _put_content(gtype, step)
+                _write_bytes(target, data)
+                old = step['what'] if step['what'] != 'graph' else 'graph-by-harness'
+                labels.append('target-old:' + old)
+                note = "{} bytes, {}".format(len(data), note) if step['what'] == 'graph' else note
+                continue
+            lab, now, line = _target_run(gtype, cmd, step, top, target, cur, note)
+            labels += lab
+            if now is None:
+                rejected = 'target:request-refused' in lab
+                break
+            if line in lines:
+                labels.append('target-same-command-again')
+            if lines:
+                old = 'earlier-run-other-format' if (cur is not None and cur[1] != now[1]) else 'earlier-run'
+                labels.append('target-old:' + old)
+            for l in ('target:longer', 'target:shorter', 'target:equal'):
+                if l in lab:
+                    nontrivial = True
+                    labels.append('{}<-{}'.format(l, old))
+            lines.append(line)
+            cur = now
+            note = "{} bytes left by `{}`".format(len(_read_bytes(target) or b''), line)
+    finally:
+        shutil.rmtree(top, True)
+    return Outcome(labels=sorted(set(labels)), nontrivial=nontrivial, rejected=rejected)
+
+
 def run_cli(case):
     if case.get('kind') == 'file':
         return run_file(case)
+    if case.get('kind') == 'target':
+        return run_target(case)
     gtype, tokens, rseed = case['gtype'], [str(t) for t in case['tokens']], case['rseed']
     cmd = [str(t) for t in case['cmd']]
     out = judge(gtype, tokens, cli_builder(cmd, gtype, rseed, _tmpdir()))
@@ -853,6 +1183,8 @@ TYPE_WEIGHTS = ['simple'] * 5 + ['bipartite'] * 5 + ['dag', 'digraph']
 def _decode_spec(pair):
     ints, rseed = pair
     s = Stream(ints)
+    if s.below(12) == 0:
+        return _decode_target(s, 'spec')
     s.budget = s.pick(BUDGETS)
     gtype = s.pick(TYPE_WEIGHTS)
     toks, shape, edges = gen_base(s, gtype)
@@ -880,6 +1212,8 @@ CMDS = {
 def _decode_cli(pair):
     ints, rseed = pair
     s = Stream(ints)
+    if s.below(8) == 0:
+        return _decode_target(s, 'cli')
     s.budget = s.pick(BUDGETS)
     gtype = s.pick(['simple', 'simple', 'bipartite', 'bipartite', 'dag'])
     cmd = s.pick(CMDS[gtype])
@@ -1116,12 +1450,172 @@ def file_cases(tier, via):
                     k += 1
 
 
+# ---- the state of the `save` target before the command
+
+TGT_BIG = {
+    'simple': [['gnm', 9, 20], ['complete', 7], ['gnd', 8, 4], ['grid', 3, 3], ['gnm', 8, 16], ['torus', 3, 3], ['gnp', 8, '0.9']],
+    'bipartite': [['glrm', 6, 6, 20], ['complete', 5, 5], ['glrd', 7, 5, 3], ['regular', 6, 6, 3], ['shift', 8, 8, 0, 1, 3]],
+    'dag': [['pyramid', 3], ['tree', 3], ['path', 8]],
+    'digraph': [['pyramid', 3], ['tree', 3], ['path', 8]],
+}
+TGT_SMALL = {
+    'simple': [['gnm', 5, 3], ['empty', 2], ['complete', 2], ['gnm', 1, 0], ['grid', 2], ['gnm', 4, 2], ['complete', 3]],
+    'bipartite': [['glrm', 2, 3, 2], ['empty', 1, 1], ['complete', 1, 2], ['glrd', 3, 2, 1], ['shift', 2, 2, 0]],
+    'dag': [['path', 1], ['path', 0], ['tree', 1], ['pyramid', 1]],
+    'digraph': [['path', 1], ['path', 0], ['tree', 1], ['pyramid', 1]],
+}
+TGT_TINY = {'simple': ['gnm', 1, 0], 'bipartite': ['empty', 1, 1], 'dag': ['path', 0], 'digraph': ['path', 0]}
+TGT_MODS = {
+    'simple': [[], [], [], [['plantclique', 2]], [['addedges', 1]], [['splitedges', 1]], [['plantclique', 3], ['splitedges', 1]],
+               [['addedges', 1], ['splitedges', 1]], [['addedges', 2]]],
+    'bipartite': [[], [], [], [['plantbiclique', 1, 1]], [['addedges', 1]], [['plantbiclique', 1, 2], ['addedges', 1]]],
+    'dag': [[]],
+    'digraph': [[]],
+}
+TGT_SCENARIOS = ['absent', 'empty', 'own-longer', 'own-longer-other-format', 'own-shorter', 'junk-longer', 'junk-shorter',
+                 'graph-longer', 'twice', 'again-other-seed', 'other-input-file', 'input-own']
+TGT_SCENARIOS_CLI_QUICK = ['absent', 'own-longer', 'junk-longer', 'twice', 'own-longer-other-format']
+TGT_NAMES = ['g', 'out put', 'salida_ñ.v2', 'γράφος']
+
+
+def _target_graph(rnd, gtype, big):
+    """description of a graph for a file written by the harness"""
+    p = rnd.choice([0.5, 0.7, 0.9]) if big else rnd.choice([0.0, 0.3, 0.6])
+    if gtype == 'bipartite':
+        L, Rr = (rnd.choice([5, 6, 7]), rnd.choice([5, 6])) if big else (rnd.choice([1, 2, 3]), rnd.choice([1, 2, 3]))
+        pairs = [(u, v) for u in range(1, L + 1) for v in range(1, Rr + 1)]
+        return R.make_desc(gtype, L=L, R=Rr, edges=[e for e in pairs if rnd.random() < p])
+    n = rnd.choice([7, 8, 9]) if big else rnd.choice([1, 2, 3, 4])
+    pairs = [(u, v) for u in range(1, n + 1) for v in range(u + 1, n + 1)]      # upward: fine for every type
+    return R.make_desc(gtype, n=n, edges=[e for e in pairs if rnd.random() < p])
+
+
+def _target_case(rnd, gtype, ofmt, scenario, via, ifmt=None):
+    fmts = M.FORMATS[gtype]
+    others = [f for f in fmts if f != ofmt]
+    other = rnd.choice(others)
+    sform = rnd.choice(['ext', 'fmt'])
+    stem = rnd.choice(TGT_NAMES)
+    if scenario == 'input':
+        # the extension tells the format of the file as it is at first, another one, or nothing
+        oname = stem + rnd.choice(['.' + ifmt, '.' + ifmt, '.graph', '', '.' + ofmt])
+    else:
+        oname = stem + ('.' + ofmt if sform == 'ext' else rnd.choice(['.graph', '', '.' + other, '.' + ofmt]))
+    seed = lambda: rnd.randrange(2 ** 32)       # noqa
+    big, small = rnd.choice(TGT_BIG[gtype]), rnd.choice(TGT_SMALL[gtype])
+    mods = rnd.choice(TGT_MODS[gtype]) if (via == 'spec' or rnd.random() < 0.4) else []
+    if scenario in ('own-longer-other-format', 'graph-longer') and (ofmt == 'gml' or (gtype == 'bipartite' and ofmt == 'dot')):
+        # the new text is in a verbose format: the smallest graphs, so that the earlier content can still be the longer one
+        small, mods = TGT_TINY[gtype], []
+
+    def run(src, fmt=ofmt, mods=(), form=None, rseed=None, sform_=None):
+        return {'op': 'run', 'src': src, 'form': form or rnd.choice(['ext', 'fmt']), 'mods': [list(m) for m in mods],
+                'ofmt': fmt, 'sform': sform_ or sform, 'rseed': seed() if rseed is None else rseed}
+
+    def junk(size):
+        what = rnd.choice(['junk-ascii', 'junk-utf8', 'junk-bytes'])
+        return {'op': 'put', 'what': what, 'size': size, 'fmt': ofmt}
+
+    def other_file(big_one):
+        f = rnd.choice(fmts)
+        return {'graph': _target_graph(rnd, gtype, big_one), 'ifmt': f, 'style': rnd.choice(FILE_STYLES),
+                'name': 'in put' + rnd.choice(['.' + f, '.txt', ''])}
+    if scenario == 'absent':
+        steps = [run(rnd.choice([big, small]), mods=mods)]
+    elif scenario == 'empty':
+        steps = [{'op': 'put', 'what': 'empty'}, run(rnd.choice([big, small]), mods=mods)]
+    elif scenario == 'own-longer':
+        steps = [run(big), run(small, mods=mods)]
+    elif scenario == 'own-longer-other-format':
+        # gml is the most verbose format, matrix the tersest: the earlier graph is large enough in every pairing
+        steps = [run(big, fmt=other, sform_='fmt'), run(small, mods=mods)]
+    elif scenario == 'own-shorter':
+        steps = [run(small, fmt=rnd.choice([ofmt, other]), sform_='fmt'), run(big, mods=mods)]
+    elif scenario == 'junk-longer':
+        steps = [junk(rnd.choice([3000, 4096, 5000, 8193])), run(rnd.choice([big, small]), mods=mods)]
+    elif scenario == 'junk-shorter':
+        steps = [junk(rnd.choice([1, 2, 3, 7, 16])), run(rnd.choice([big, small]), mods=mods)]
+    elif scenario == 'graph-longer':
+        f = rnd.choice([ofmt, ofmt, other])
+        steps = [{'op': 'put', 'what': 'graph', 'graph': _target_graph(rnd, gtype, True), 'fmt': f,
+                  'style': rnd.choice(FILE_STYLES), 'pad': rnd.choice([0, 0, 3])}, run(small, mods=mods)]
+    elif scenario == 'twice':
+        one = run(rnd.choice([big, small]), mods=mods)
+        steps = [one, dict(one)]
+    elif scenario == 'again-other-seed':
+        cons = rnd.choice([c for c in TGT_BIG[gtype] + TGT_SMALL[gtype] if c[0] in M.RANDOM_CONSTRUCTIONS] or [big])
+        steps = [run(cons, mods=mods), run(cons, mods=mods), run(cons, mods=mods)]
+    elif scenario == 'other-input-file':
+        first = rnd.choice([junk(5000), run(big, fmt=rnd.choice([ofmt, other]), sform_='fmt')])
+        steps = [first, run(other_file(False), mods=mods), run(other_file(True))]
+    elif scenario == 'input-own':
+        # the tree writes the file, then reads it and saves over it (the second time with modifiers: a longer text)
+        steps = [run(rnd.choice([big, small])), run('self', form='ext' if sform == 'ext' else 'fmt', mods=mods), run('self')]
+    elif scenario == 'input':
+        # the harness writes the file; the command reads it and saves over it, in the same format or another one;
+        # padded with comment lines (or written with attributes) so that the text stored is shorter than the one read
+        g = _target_graph(rnd, gtype, rnd.random() < 0.5)
+        pad = rnd.choice([0, 4, 4, 9])
+        style = rnd.choice(FILE_STYLES)
+        if pad and ifmt == 'matrix':
+            style |= 32
+        if pad and ifmt == 'dot':
+            style |= 2
+        if pad and ifmt == 'gml':
+            style = (style | 2) & ~8
+        steps = [{'op': 'put', 'what': 'graph', 'graph': g, 'fmt': ifmt, 'style': style, 'pad': pad},
+                 run('self', mods=[] if pad else mods, sform_=rnd.choice(['ext', 'fmt']))]
+        if ifmt == ofmt:
+            steps.append(run('self', sform_=rnd.choice(['ext', 'fmt'])))
+    else:
+        raise KeyError(scenario)
+    case = {'kind': 'target', 'gtype': gtype, 'oname': oname, 'scenario': scenario, 'steps': steps}
+    if via == 'cli':
+        case['cmd'] = rnd.choice(FILE_CMDS[gtype])
+        # the earlier commands of a history go through the library in half of the cases (in-process commands are slow)
+        if len(steps) > 1 and rnd.random() < 0.5:
+            for st_ in steps[:-1]:
+                if st_['op'] == 'run':
+                    st_['via'] = 'lib'
+    return case
+
+
+def target_cases(tier, via):
+    """every graph type x every `save` format x every scenario of the earlier content of the target, then every
+    (format read, format saved) pair with the target being the file of the graph argument"""
+    rounds = {('spec', 'quick'): 1, ('spec', 'thorough'): 40, ('cli', 'quick'): 1, ('cli', 'thorough'): 12}[(via, tier)]
+    rnd = random.Random(1513 if via == 'spec' else 1517)
+    types = M.TYPES if via == 'spec' else ('simple', 'bipartite', 'dag')
+    for rep in range(rounds):
+        k = 0
+        for gtype in types:
+            fmts = M.FORMATS[gtype]
+            for ofmt in fmts:
+                scenarios = TGT_SCENARIOS if (via == 'spec' or tier != 'quick') else TGT_SCENARIOS_CLI_QUICK
+                for sc in scenarios:
+                    yield _target_case(rnd, gtype, ofmt, sc, via)
+            for i, ifmt in enumerate(fmts):
+                for j, o in enumerate(fmts):
+                    k += 1
+                    if via == 'cli' and tier == 'quick' and i != j and (i + 2 * j + rep) % 3:
+                        continue
+                    yield _target_case(rnd, gtype, o, 'input', via, ifmt=ifmt)
+
+
+def _decode_target(s, via):
+    gtype = s.pick(M.TYPES if via == 'spec' else ('simple', 'bipartite', 'dag'))
+    fmts = M.FORMATS[gtype]
+    if s.chance(30):
+        return _target_case(s.rnd, gtype, s.pick(fmts), 'input', via, ifmt=s.pick(fmts))
+    return _target_case(s.rnd, gtype, s.pick(fmts), s.pick(TGT_SCENARIOS), via)
+
+
 def enum_files_spec(tier):
-    return file_cases(tier, 'spec')
+    return itertools.chain(file_cases(tier, 'spec'), target_cases(tier, 'spec'))
 
 
 def enum_files_cli(tier):
-    return file_cases(tier, 'cli')
+    return itertools.chain(file_cases(tier, 'cli'), target_cases(tier, 'cli'))
 
 
 _FILE_LABELS = (['file/{}/{}'.format(t, f) for t in M.TYPES for f in M.FORMATS[t]]
@@ -1138,6 +1632,21 @@ _FILE_LABELS_CLI = (['file/{}/{}'.format(t, f) for t in ('simple', 'bipartite', 
                        'save-before-modifiers', 'save-after-modifiers', 'file-name:blank', 'file-name:single-quote',
                        'file-name:double-quote', 'file-name:non-ascii', 'file-name:several-dots', 'reread-by-tree'])
 
+_TARGET_LABELS = (['target:longer/{}/{}'.format(t, f) for t in M.TYPES for f in M.FORMATS[t]]
+                  + ['target:absent', 'target:empty', 'target:longer', 'target:shorter', 'target:equal', 'target-same-command-again',
+                     'target:longer<-earlier-run', 'target:longer<-earlier-run-other-format', 'target:longer<-graph-by-harness',
+                     'target:longer<-junk-ascii', 'target:longer<-junk-utf8', 'target:longer<-junk-bytes',
+                     'target:shorter<-earlier-run', 'target:equal<-earlier-run', 'target-with-input-file',
+                     'target-is-input', 'target-is-input:same-format', 'target-is-input:other-format', 'target-is-input:longer',
+                     'target-is-input:shorter', 'target-save-form:ext', 'target-save-form:fmt']
+                  + ['target-is-input/{0}->{0}'.format(f) for f in M.ALL_FORMATS])
+_TARGET_LABELS_CLI = (['target:longer/{}/{}'.format(t, f) for t in ('simple', 'bipartite', 'dag') for f in M.FORMATS[t]]
+                      + ['target:absent', 'target:longer', 'target:equal', 'target-same-command-again', 'target-via-command-line',
+                         'target-formula-checked', 'target:longer<-earlier-run', 'target:longer<-earlier-run-other-format',
+                         'target:longer<-graph-by-harness', 'target-is-input', 'target-is-input:same-format',
+                         'target-is-input:other-format', 'target-is-input:longer']
+                      + ['target-is-input/{0}->{0}'.format(f) for f in M.ALL_FORMATS])
+
 _CONS_LABELS = ['{}/{}'.format(t, c) for t in M.TYPES for c in M.CONSTRUCTIONS[t]]
 _SAVE_LABELS = ['saved/{}/{}'.format(t, f) for t in M.TYPES for f in M.FORMATS[t]]
 
@@ -1149,19 +1658,21 @@ SUBCHECKS = [
                                              't-partite', 'multipartite', 'p=0', 'p=1', 'offset=R', 'arity', 'no-dimension',
                                              'gnd-N=d', 'gnd-N=d+1']),
     SubCheck('options', run_spec, strategy=strat_spec, enumerate_cases=enum_files_spec, quick=4000, thorough=480000,
-             rule="(a) enumerated: graph arguments READ FROM A FILE written by the harness, for every graph type (simple, digraph, dag, bipartite) x every input format of the type (kthlist, gml, dot, dimacs / matrix; harness-side writers, several layouts) x every `save` format of the type, 6 (thorough: 170) rounds in which the other dimensions cycle: file names with blanks, single and double quotes, several / leading / trailing dots, the extension of another format, non-ASCII letters, punctuation, a directory whose name ends like an extension; `<file>` (format from the extension) and `<format> <file>` (no, unknown or misleading extension); every subset of the modifiers the type allows, in the documented order or another, with numbers that fit the graph of the file (6%: one too many); `save <out.ext>` and `save <format> <out>` (output names with blanks, non-ASCII letters, the extension of the input format) written before, between and after the modifiers. Oracle: the file alone gives exactly the graph the harness wrote; wherever `save` stands, the saved file -- read by the harness's reference readers and given back to the tree as a graph argument -- is exactly the graph returned, and that graph is the file's graph plus the step relations of the modifiers (addedges k: k new edges, old ones and vertices kept; splitedges k: k vertices and k edges more, each new vertex subdivides one old edge; plantclique/plantbiclique: old edges kept, the new ones complete a clique of the requested size), refusal exactly when a number does not fit; non-trivial: file graph with an edge and >= 3 vertices. (b) generated: construction with boundary arguments followed by any subset of the options valid for the type (plantclique / plantbiclique / addedges / splitedges with arguments inside, at and just outside what the graph allows; save in every format, explicit or by extension, unknown extension, missing file) in any order, plus foreign constructions/options, wrong arities, repeated options, odd number spellings; oracle: chain of step relations against the same specification without the later modifiers under the same seed, saved file read by the harness's readers equals the returned graph; non-trivial: accepted random construction or a modifier with a non-zero argument",
+             rule="(a) enumerated: graph arguments READ FROM A FILE written by the harness, for every graph type (simple, digraph, dag, bipartite) x every input format of the type (kthlist, gml, dot, dimacs / matrix; harness-side writers, several layouts) x every `save` format of the type, 6 (thorough: 170) rounds in which the other dimensions cycle: file names with blanks, single and double quotes, several / leading / trailing dots, the extension of another format, non-ASCII letters, punctuation, a directory whose name ends like an extension; `<file>` (format from the extension) and `<format> <file>` (no, unknown or misleading extension); every subset of the modifiers the type allows, in the documented order or another, with numbers that fit the graph of the file (6%: one too many); `save <out.ext>` and `save <format> <out>` (output names with blanks, non-ASCII letters, the extension of the input format) written before, between and after the modifiers. Oracle: the file alone gives exactly the graph the harness wrote; wherever `save` stands, the saved file -- read by the harness's reference readers and given back to the tree as a graph argument -- is exactly the graph returned, and that graph is the file's graph plus the step relations of the modifiers (addedges k: k new edges, old ones and vertices kept; splitedges k: k vertices and k edges more, each new vertex subdivides one old edge; plantclique/plantbiclique: old edges kept, the new ones complete a clique of the requested size), refusal exactly when a number does not fit; non-trivial: file graph with an edge and >= 3 vertices. (a') enumerated, THE STATE OF THE `save` TARGET BEFORE THE COMMAND: every graph type x every `save` format of the type x the histories {target absent; empty file; an earlier, larger graph saved there by the tree in the same format / in another format; an earlier smaller one; 3000-8193 bytes / 1-16 bytes of junk (ASCII lines that look like the format, non-ASCII UTF-8 text, bytes that are not UTF-8); a larger graph file written by the harness (same or other format, any layout, comment lines in front); the same command twice under the same seed; a random construction three times under three seeds; another input file of the harness given as graph argument; the tree's own file read back as graph argument and saved over, twice}, plus every (format read, format saved) pair with the target being THE FILE OF THE GRAPH ARGUMENT itself (`g.kthlist save g.kthlist`, `kthlist g.graph save gml g.graph`; harness files padded with comments / attributes so that the text stored is shorter than the text read; saved over a second time when the format stays), 1 (thorough: 40) rounds, constructions from a list of large (7-15 vertices) and small (1-5 vertices) ones, up to two modifiers in the documented order, both forms of `save` and of the file argument, odd target names. Oracle after EVERY command of the history: the graph in use is the construction's structure / the file's graph plus the step relations (same specification without `save` under the same seed); the whole target, read by the harness's readers, is exactly that graph, nothing but blanks follows the closing bracket / brace of a gml / dot file, the bytes equal what the same request stores under a new name, and the file is accepted back as a graph argument; labelled longer / shorter / equal from the actual lengths; non-trivial: a command that found a non-empty target. (b) generated (1 case in 12 is a random history of (a')): construction with boundary arguments followed by any subset of the options valid for the type (plantclique / plantbiclique / addedges / splitedges with arguments inside, at and just outside what the graph allows; save in every format, explicit or by extension, unknown extension, missing file) in any order, plus foreign constructions/options, wrong arities, repeated options, odd number spellings; oracle: chain of step relations against the same specification without the later modifiers under the same seed, saved file read by the harness's readers equals the returned graph; non-trivial: accepted random construction or a modifier with a non-zero argument",
              required_labels=_CONS_LABELS + _SAVE_LABELS + ['opt-plantclique', 'opt-plantbiclique', 'opt-addedges', 'opt-splitedges',
                                                            'opt-save', 'saved', 'options>=2', 'options-reordered', 'modifier-nonzero',
                                                            'just-outside-rejected', 'at-limit-accepted', 'dense-path', 'sparse-path',
                                                            'save-unknown-format', 'gray-accepted', 'foreign-construction',
                                                            'plantclique:at-limit', 'addedges:at-limit', 'splitedges:at-limit',
                                                            'plantbiclique:at-limit', 'addedges:just-outside', 'splitedges:just-outside',
-                                                           'plantclique:just-outside', 'plantbiclique:just-outside'] + _FILE_LABELS),
+                                                           'plantclique:just-outside', 'plantbiclique:just-outside'] + _FILE_LABELS
+             + _TARGET_LABELS),
     SubCheck('sweep', run_spec, enumerate_cases=enum_sweep, quick=0, thorough=0,
              rule="fixed small specifications of the samplers with retry loops and fall-backs (regular, glrm at the sparse/dense switch, gnd, addedges up to the complete graph, modifier chains) under every seed 0..N-1 (N between 100 and 12000, thorough up to 180000); same oracle; non-trivial: every accepted case",
              required_labels=['bipartite/regular', 'bipartite/glrm', 'simple/gnd', 'opt-addedges', 'dense-path', 'sparse-path']),
     SubCheck('cli', run_cli, strategy=strat_cli, enumerate_cases=enum_files_cli, quick=320, thorough=24000,
-             rule="(a) enumerated: the graph arguments read from harness-written files of sub-check `options` (simple, bipartite, dag x every input format x every `save` format, 2 (thorough: 51) rounds, at most two modifiers, odd file names, both forms of the argument and of `save`, `save` before / between / after the modifiers) after `cnfgen kcolor k | domset d | php [--functional] [--onto] | peb`, in-process; oracle: as there, the graphs being the ones found in the saved files, and the formula equals the library formula on the saved graph, the saved file given back as a graph argument is that graph. (b) generated: the same specifications after `cnfgen kcolor k | domset d | php [--functional] [--onto] | peb`, run in-process; the graph is the one found in the file written by `save` (the harness appends `save kthlist <file>` when the case has none); oracle: CLIError exactly when the model says refusal, same structure predicates and step relations on the saved graphs, and the clauses and variable names of the formula equal the library formula built on the saved graph; non-trivial as above",
+             rule="(a) enumerated: the graph arguments read from harness-written files of sub-check `options` (simple, bipartite, dag x every input format x every `save` format, 2 (thorough: 51) rounds, at most two modifiers, odd file names, both forms of the argument and of `save`, `save` before / between / after the modifiers) after `cnfgen kcolor k | domset d | php [--functional] [--onto] | peb`, in-process; oracle: as there, the graphs being the ones found in the saved files, and the formula equals the library formula on the saved graph, the saved file given back as a graph argument is that graph. (a') enumerated: the histories of the `save` target of sub-check `options` (simple, bipartite, dag x every `save` format x {absent, earlier larger graph in the same / another format, long junk, same command twice}, all histories in the thorough tier; target = file of the graph argument for every format kept and a third of the format changes), the last command -- in half of the cases every command -- going through `cnfgen <sub-command>` in-process; same oracle, the graph being the one found in the target, plus: the formula equals the library formula on that graph. (b) generated (1 case in 8 is a random history of (a')): the same specifications after `cnfgen kcolor k | domset d | php [--functional] [--onto] | peb`, run in-process; the graph is the one found in the file written by `save` (the harness appends `save kthlist <file>` when the case has none); oracle: CLIError exactly when the model says refusal, same structure predicates and step relations on the saved graphs, and the clauses and variable names of the formula equal the library formula built on the saved graph; non-trivial as above",
              required_labels=['cmd-kcolor', 'cmd-php', 'cmd-peb', 'cmd-domset', 'saved', 'rejected', 'modifier-nonzero',
-                              'opt-plantclique', 'opt-plantbiclique', 'opt-addedges', 'opt-splitedges'] + _FILE_LABELS_CLI),
+                              'opt-plantclique', 'opt-plantbiclique', 'opt-addedges', 'opt-splitedges'] + _FILE_LABELS_CLI
+             + _TARGET_LABELS_CLI),
 ]
